@@ -249,7 +249,9 @@ func checkArc(r *fw.R, sps []oracle.Subpath, s, o oracle.Seg, am, inv oracle.Aff
 	r.Max("transform_arc_lambda_drift", math.Abs(lam2-lam))
 	eps := 1e-6
 	if st == oracle.ArcHalf {
-		eps = 1e-9
+		// lambda of the output is x^2/rx^2 + y^2/ry^2 in the output's own frame: it is only
+		// computable to about (rx/ry) ulps, so the bound grows with the eccentricity of the output
+		eps = 1e-9 * math.Max(1, o.Rx/o.Ry/1000)
 	}
 	if !(math.Abs(lam2-lam) <= eps) {
 		viol(r, sps, "transform-arc-radii", fmt.Sprintf("radii do not fit the chord as before: lambda %.12g -> %.12g; output %s", lam, lam2, oracle.Fmt(outData)))
@@ -437,6 +439,26 @@ func arcPairPaths() ([][]oracle.Subpath, []string) {
 			a3 := oracle.MkArc(P(7, 1.5), 5, 2, rots[1], false, f == 1, P(8.5, 7))
 			ps = append(ps, []oracle.Subpath{oracle.Chain(false, a1, l, a3)})
 			names = append(names, fmt.Sprintf("arc(5,2,rot%g)+line+arc(5,2,rot%g) sweep=%v", rots[0], rots[1], f == 1))
+		}
+	}
+	return ps, names
+}
+
+// scaledArcPaths: the arcs of the segment menu at coordinate scales 0.001, 100 and 1000 (the
+// coefficients of the conic of an arc go with 1/r^2: radii of a few hundred make them vanish
+// against an absolute epsilon).
+func scaledArcPaths() ([][]oracle.Subpath, []string) {
+	var ps [][]oracle.Subpath
+	var names []string
+	P := func(x, y float64) oracle.Pt { return oracle.Pt{X: x, Y: y} }
+	for _, f := range []float64{0.001, 100, 1000} {
+		for _, rr := range [][2]float64{{2, 1}, {1.5, 1.5}, {3, 0.5}, {4, 3}} {
+			for _, rot := range []float64{0, 30, 120} {
+				for fl := 0; fl < 4; fl += 3 {
+					ps = append(ps, curvefam.One(oracle.MkArc(P(0.5*f, -1*f), rr[0]*f, rr[1]*f, rot, fl&1 != 0, fl&2 != 0, P(2.5*f, 0))))
+					names = append(names, fmt.Sprintf("arc(%g,%g,rot%g,large=%v,sweep=%v) x%g", rr[0], rr[1], rot, fl&1 != 0, fl&2 != 0, f))
+				}
+			}
 		}
 	}
 	return ps, names
@@ -665,6 +687,7 @@ func families(tier string) []fw.Family {
 		transformFamily("arcs of equal radii and different rotation in one path x matrix words <= 2", arcPairPaths, 2),
 		convenienceFamily(),
 		lawsFamily(2),
+		transformFamily("arcs at coordinate scales 0.001, 100, 1000 x matrix words <= 1", scaledArcPaths, 1),
 	}
 	if tier == "thorough" {
 		fs = append(fs,
